@@ -93,3 +93,23 @@ Definition index_response (es : list (bytes * node)) : resp :=
          | _ => R404
          end
   end.
+
+(* ---- the example tree of props/C06_complete.v (non-vacuity) ---- *)
+Definition ex_fs : node :=
+  Dir [([119;119;119],                                                   (* www *)
+        Dir [([115;112;32;97;99;101;46;99;115;115], File [1]);            (* "sp ace.css" *)
+             ([113;37;52;49;46;116;120;116], File [2]);                   (* "q%41.txt" *)
+             ([195;169;46;106;115], File [3]);                            (* "é.js" *)
+             ([99;46;116;97;114;46;103;122], File [4]);                   (* "c.tar.gz" *)
+             ([98], File [5]);                                            (* "b" *)
+             ([46;104;105;100;100;101;110], File [6]);                    (* ".hidden" *)
+             ([100;111;116;46], File [7]);                                (* "dot." *)
+             ([97;32;98],                                                 (* "a b" *)
+              Dir [([105;110;100;101;120;46;104;116;109;108], Dir []);    (* index.html is a directory *)
+                   ([105;110;100;101;120;46;104;116;109], File [8]);      (* index.htm *)
+                   ([112;43;113;46;104;116;109;108], File [9])]);         (* "p+q.html" *)
+             ([101], Dir [])]);                                           (* "e": empty directory *)
+       ([115;101;99], File [99])].                                        (* canary outside *)
+Definition ex_dir : bytes := [47;119;119;119;47].                        (* "/www/" *)
+Definition ex_root : list bytes := [[119;119;119]].
+
